@@ -20,7 +20,7 @@ Kinds covered: `bin op` (op ≤ 12), `un op` (op < 3), `not_`, `boolop _`, `cmp 
 arguments, no tuple or slice as subscript).  Not covered (still validated against CPython only): `named`, `yield_`,
 `yieldFrom`, `star`, `starArg`, `tuple`, `call` with keywords, displays, comprehensions, statement and pattern kinds.  Uniqueness is *within the fragment*:
 the relation `Derives` lets a leaf carry any class and has unit-like kinds (`exprStmt`), so a tree outside the fragment
-can share a phrase with one inside.
+can share a phrase with one inside (`derives_unique_false_outside_fragment` gives the witnesses).
 -/
 namespace Pfst.C09c
 open Pfst.Grammar Pfst.Parse Pfst.C09
@@ -97,6 +97,26 @@ theorem replace_groups_unique (P : Slot → Cls → Bool)
     (hf : inFrag (setKid e i r) = true) (hf' : inFrag e' = true)
     (hd : Derives s (pr P s (setKid e i r)) e') : e' = setKid e i r :=
   pr_derives_only P hneed hpar s _ e' hw hf hf' hd
+
+/-! ### why the fragment hypothesis is needed: outside it the relation `Derives` is NOT unambiguous -/
+
+/-- Full-strength unambiguity (`∀ e₁ e₂`, no `inFrag`) is false of the grammar as modelled: `Derives.leaf` lets a leaf
+carry any class, statement kinds such as `exprStmt` render exactly like their child, and the two kinds of starred
+expression (`star`: `'*' bitwise_or` in displays, `starArg`: `'*' expression` in calls) render alike and share the class
+`star` — which of them a slot means is fixed by the context, not by `Derives`.  Concrete witnesses: -/
+theorem derives_unique_false_outside_fragment :
+    (∃ e₁ e₂, Derives (sl TEST) [.name 0] e₁ ∧ Derives (sl TEST) [.name 0] e₂ ∧ e₁ ≠ e₂) ∧
+    (∃ e₁ e₂, Derives { minLad := TEST, named := true, star := true } [.sym tStar, .name 0] e₁ ∧
+      Derives { minLad := TEST, named := true, star := true } [.sym tStar, .name 0] e₂ ∧ e₁ ≠ e₂) := by
+  refine ⟨⟨.leaf (.name 0) (.lad ATOM), .node .exprStmt [.leaf (.name 0) (.lad ATOM)], ?_, ?_, by simp⟩,
+    ⟨.node .star [.leaf (.name 0) (.lad ATOM)], .node .starArg [.leaf (.name 0) (.lad ATOM)], ?_, ?_, by simp⟩⟩
+  · exact Derives.leaf _ _ _ (by decide)
+  · exact Derives.node (sl TEST) .exprStmt [_] [[.name 0]] rfl (by decide)
+      (DerivesL.cons _ 0 _ [] [.name 0] [] (Derives.leaf _ _ _ (by decide)) (DerivesL.nil _ 1))
+  · exact Derives.node _ .star [_] [[.name 0]] rfl (by decide)
+      (DerivesL.cons _ 0 _ [] [.name 0] [] (Derives.leaf _ _ _ (by decide)) (DerivesL.nil _ 1))
+  · exact Derives.node _ .starArg [_] [[.name 0]] rfl (by decide)
+      (DerivesL.cons _ 0 _ [] [.name 0] [] (Derives.leaf _ _ _ (by decide)) (DerivesL.nil _ 1))
 
 /-! ### non-vacuity -/
 
